@@ -115,6 +115,28 @@ func main() {
 	run.Set("combinations_enumerated", len(all))
 	run.Set("combinations_scheduled", len(jobs))
 
+	// the heavy "big snapshot, busy source" family, from its own PRNG stream
+	nBig := run.N(2, 6)
+	type bigJob struct {
+		key, backend string
+	}
+	var bigs []bigJob
+	for i := 0; i < nBig; i++ {
+		for _, be := range []string{"disk", "mem"} {
+			bigs = append(bigs, bigJob{fmt.Sprintf("big-snapshot|%s#%d", be, i), be})
+		}
+	}
+	run.Set("big_snapshot_cases_scheduled", len(bigs))
+	bigDone := make(chan struct{})
+	go func() {
+		defer close(bigDone)
+		harness.Parallel(len(bigs), 4, func(i int) {
+			if run.WantCase(bigs[i].key) {
+				bigSnapshotCase(run, bigs[i].key, bigs[i].backend, tmp, i)
+			}
+		})
+	}()
+
 	harness.Parallel(len(jobs), 16, func(i int) {
 		j := jobs[i]
 		key := fmt.Sprintf("%s#%d", j.c.Label(), j.seed)
@@ -123,6 +145,7 @@ func main() {
 		}
 		oneCase(run, key, j.c, tmp, i)
 	})
+	<-bigDone
 	os.RemoveAll(tmp)
 	comboMu.Lock()
 	sort.Strings(comboLog)
